@@ -146,4 +146,113 @@ theorem numbered_scale (k : Nat) (ls : List Str) (h : ∀ l ∈ ls, openerTight 
   have := run_scale k ls h St.init
   rwa [scaleSt_init] at this
 
+/-! ### up to the indentation numbers, scaling changes nothing - unconditionally -/
+
+def eraseSt (st : St) : St :=
+  { st with inString := st.inString.map (fun p => (p.1, 0)), pending := st.pending.map (fun p => (p.1, 0)) }
+
+def eraseRes : Except Err (St × List Rec) → Except Err (St × List Rec)
+  | .error e => .error e
+  | .ok p => .ok (eraseSt p.1, p.2.map eraseRec)
+
+theorem eraseRes_ite (c : Prop) [Decidable c] (a b : Except Err (St × List Rec)) :
+    eraseRes (if c then a else b) = if c then eraseRes a else eraseRes b := by
+  split <;> rfl
+theorem eraseRes_ok (p : St × List Rec) : eraseRes (.ok p) = .ok (eraseSt p.1, p.2.map eraseRec) := rfl
+theorem eraseRes_error (e : Err) : eraseRes (.error e) = .error e := rfl
+
+theorem settle_erase (mlc : Bool) (cm : Option Str) (ins pend ins' pend' : Option (Str × Nat)) (text : Str) (ind ind' : Nat)
+    (hi : ins.map (fun p => (p.1, 0)) = ins'.map (fun p => (p.1, 0))) :
+    eraseRes (.ok (settle ⟨mlc, cm, ins, pend⟩ text ind)) = eraseRes (.ok (settle ⟨mlc, cm, ins', pend'⟩ text ind')) := by
+  unfold settle
+  by_cases h : wantsMore text = true
+  · simp [h, eraseRes, eraseSt, hi]
+  · simp [h, eraseRes, eraseSt, eraseRec, hi]
+
+/-- a step, up to indentation numbers, does not depend on the indentation numbers (state, leading spaces, raw length) -/
+theorem stepV_erase (st : St) (s : Str) (ld len ld' len' : Nat) :
+    eraseRes (stepV st s ld len) = eraseRes (stepV (eraseSt st) s ld' len') := by
+  obtain ⟨mlc, cm, ins, pend⟩ := st
+  cases pend with
+  | some p =>
+    obtain ⟨text, ind⟩ := p
+    have key : ∀ X, eraseRes (.ok (settle ⟨mlc, cm, ins, some (text, ind)⟩ X ind)) =
+        eraseRes (.ok (settle ⟨mlc, cm, ins.map (fun p => (p.1, 0)), some (text, 0)⟩ X 0)) :=
+      fun X => settle_erase mlc cm ins _ _ _ X ind 0 (by cases ins <;> rfl)
+    simp only [stepV, eraseSt, Option.map_some, eraseRes_ite, eraseRes_error, key]
+  | none =>
+    cases ins with
+    | some q =>
+      obtain ⟨cur, mind⟩ := q
+      simp only [stepV, eraseSt, Option.map_some, Option.map_none]
+      split <;> simp [eraseRes, eraseSt, eraseRec]
+    | none =>
+      have he : eraseSt ⟨mlc, cm, none, none⟩ = ⟨mlc, cm, none, none⟩ := rfl
+      rw [he]
+      simp only [stepV]
+      by_cases ho : isOpener s = true
+      · simp [ho, eraseRes, eraseSt]
+      · have hf : isOpener s = false := by simpa using ho
+        have key : ∀ X, eraseRes (.ok (settle ⟨mlc, cm, none, none⟩ X ld)) = eraseRes (.ok (settle ⟨mlc, cm, none, none⟩ X ld')) :=
+          fun X => settle_erase mlc cm none none none none X ld ld' rfl
+        simp only [hf, Bool.false_eq_true, if_false, eraseRes_ite, key]
+
+theorem step_erase_scale (k : Nat) (st st' : St) (l : Str) (h : eraseSt st = eraseSt st') :
+    eraseRes (step st' (scaleLine k l)) = eraseRes (step st l) := by
+  unfold step
+  rw [strip_scaleLine, stepV_erase st' _ _ _ 0 0, stepV_erase st _ _ _ 0 0, h]
+
+theorem finish_erase (st st' : St) (h : eraseSt st = eraseSt st') : eraseOut (finish st) = eraseOut (finish st') := by
+  obtain ⟨a, b, c, d⟩ := st
+  obtain ⟨a', b', c', d'⟩ := st'
+  simp only [eraseSt, St.mk.injEq] at h
+  obtain ⟨h1, h2, _, h4⟩ := h
+  subst h1; subst h2
+  cases d with
+  | none =>
+    cases d' with
+    | none => rfl
+    | some p' => simp at h4
+  | some p =>
+    cases d' with
+    | none => simp at h4
+    | some p' =>
+      obtain ⟨t, i⟩ := p
+      obtain ⟨t', i'⟩ := p'
+      simp only [Option.map_some, Option.some.injEq, Prod.mk.injEq, and_true] at h4
+      subst h4
+      simp only [finish, eraseOut]
+      by_cases ho : endsWith t orSuffix = true
+      · simp [ho, Except.map]
+      · simp [ho, Except.map, eraseRec]
+
+theorem run_erase_scale (k : Nat) (ls : List Str) : ∀ (st st' : St), eraseSt st = eraseSt st' →
+    eraseOut (run st' (ls.map (scaleLine k))) = eraseOut (run st ls) := by
+  induction ls with
+  | nil => intro st st' h; simpa [run] using (finish_erase st st' h).symm
+  | cons l ls ih =>
+    intro st st' h
+    have hs := step_erase_scale k st st' l h
+    simp only [List.map_cons, run]
+    cases h1 : step st' (scaleLine k l) with
+    | error e =>
+      cases h2 : step st l with
+      | error e2 => simp [h1, h2, eraseRes] at hs; simp [eraseOut, Except.map, hs]
+      | ok p => simp [h1, h2, eraseRes] at hs
+    | ok p' =>
+      cases h2 : step st l with
+      | error e2 => simp [h1, h2, eraseRes] at hs
+      | ok p =>
+        simp only [h1, h2, eraseRes, Except.ok.injEq, Prod.mk.injEq] at hs
+        have := ih p.1 p'.1 hs.1.symm
+        simp only []
+        cases h3 : run p'.1 (ls.map (scaleLine k)) <;> cases h4 : run p.1 ls <;>
+          simp_all [eraseOut, Except.map]
+
+/-- UNCONDITIONAL: scaling the leading spaces of every line by any factor never changes the texts, the comments, the number of records or the
+    error raised - only indentation NUMBERS can change (how: `numbered_scale`). -/
+theorem numbered_scale_erased (k : Nat) (ls : List Str) :
+    eraseOut (numbered (ls.map (scaleLine k))) = eraseOut (numbered ls) :=
+  run_erase_scale k ls St.init St.init rfl
+
 end NemoVerif.NumberedLines
